@@ -396,6 +396,12 @@ func randCatalog(rnd *rand.Rand, nRepos, nTags, nb, nm int, big bool) *Catalog {
 		case k == 16:
 			cat.addOpaque(id, fmt.Sprintf(`{"nonce":%q}`, nonce), true)
 		case k == 17:
+			if len(mans) > 0 && rnd.Intn(2) == 0 {
+				// a complete manifest followed by more bytes: not JSON, whatever its first value says
+				base := cat.byID[pick(mans)]
+				cat.addOpaque(id, string(base.Data)+pick([]string{"}", " {}", "\n" + string(base.Data), " x"})+fmt.Sprintf(" %q", nonce), false)
+				break
+			}
 			cat.addOpaque(id, fmt.Sprintf(`{"schemaVersion":2,"nonce":%q,"config":`, nonce), false)
 		case k == 18:
 			// a non-empty config blob is needed for the zero-size defect to be one
@@ -405,6 +411,13 @@ func randCatalog(rnd *rand.Rand, nRepos, nTags, nb, nm int, big bool) *Catalog {
 			cat.addImage(id, pick(blobs), nil, "-", "-", nonce, "nomt", 0)
 		}
 		mans = append(mans, id)
+	}
+	// every catalogue has a complete image manifest followed by more bytes (not JSON, whatever its first value says)
+	for _, m := range mans {
+		if c := cat.byID[m]; c.Natural == "image" && c.As["image"].WF && len(c.Data) < 4096 {
+			cat.addOpaque(fmt.Sprintf("m%d", nm), string(c.Data)+pick([]string{"}", " {}", " x", "\n[]"}), false)
+			break
+		}
 	}
 	return cat
 }
